@@ -25,8 +25,9 @@ struct Data {
 impl Data {
     fn new(refm: &RefModel, k: usize, r: usize, seed: u64) -> Data {
         let mut sets = BTreeMap::new();
-        if spec_supports(Kind::Rs, k, r) && k <= 8 && r <= 8 {
-            for b in [2usize, 64, 66] {
+        if spec_supports(Kind::Rs, k, r) && k + r <= 700 {
+            let sizes: &[usize] = if k <= 8 && r <= 8 { &[2, 64, 66] } else { &[2] };
+            for &b in sizes {
                 let o = data_dense(k, b, seed ^ 0xC10);
                 let rec = refm.encode(spec_high_selected(k, r), k, r, &o);
                 sets.insert(b, (o, rec));
@@ -58,11 +59,33 @@ fn show<T: std::fmt::Debug>(r: &Result<T, Error>) -> String {
     }
 }
 
+/// Iterator adaptor that hands the same items to the one-shot functions under a different (still truthful)
+/// `size_hint`: mode 0 = the inner iterator's exact hint, 1 = (0, Some(upper + 3)) as a `filter` would give,
+/// 2 = (0, None). The result of encode()/decode() must not depend on it.
+struct Loose<I> {
+    inner: I,
+    mode: u8,
+}
+impl<I: Iterator> Iterator for Loose<I> {
+    type Item = I::Item;
+    fn next(&mut self) -> Option<I::Item> {
+        self.inner.next()
+    }
+    fn size_hint(&self) -> (usize, Option<usize>) {
+        let (lo, hi) = self.inner.size_hint();
+        match self.mode {
+            0 => (lo, hi),
+            1 => (0, hi.map(|h| h + 3)),
+            _ => (0, None),
+        }
+    }
+}
+const HINT_MODES: [u8; 3] = [0, 1, 2];
+
 // ---------------------------------------------------------------- encode
 
 fn check_encode(data: &Data, k: usize, r: usize, lens: &[usize]) -> Result<(), V> {
     let originals: Vec<Vec<u8>> = lens.iter().enumerate().map(|(i, l)| data.orig(i, *l)).collect();
-    let one = guard(|| reed_solomon_simd::encode(k, r, &originals)).map_err(|p| ("no panic".to_string(), format!("PANIC: {p}")))?;
     // streaming equivalent
     let stream = guard(|| -> Result<Vec<Vec<u8>>, Error> {
         if !ReedSolomonEncoder::supports(k, r) {
@@ -99,8 +122,10 @@ fn check_encode(data: &Data, k: usize, r: usize, lens: &[usize]) -> Result<(), V
             }
         }
     }
-    let desc = format!("encode({k},{r},lens=[{}])", fmt_lens(lens));
-    match (&stream, &one) {
+    for mode in HINT_MODES {
+    let one = guard(|| reed_solomon_simd::encode(k, r, Loose { inner: originals.iter(), mode })).map_err(|p| ("no panic".to_string(), format!("PANIC: {p}")))?;
+    let desc = format!("encode({k},{r},lens=[{}]{})", fmt_lens(lens), ["", ", iterator with a loose size_hint upper bound", ", iterator with size_hint (0, None)"][mode as usize]);
+    let verdict: Result<(), V> = match (&stream, &one) {
         (Ok(a), Ok(b)) => {
             if a != b {
                 return Err((format!("{desc} == streaming result {}", show(&stream)), show(&one)));
@@ -120,7 +145,10 @@ fn check_encode(data: &Data, k: usize, r: usize, lens: &[usize]) -> Result<(), V
                 Err((format!("{desc} -> Err naming a violated precondition, one of {truthful:?}"), show(&one)))
             }
         }
+    };
+    verdict?;
     }
+    Ok(())
 }
 
 // ---------------------------------------------------------------- decode
@@ -128,8 +156,6 @@ fn check_encode(data: &Data, k: usize, r: usize, lens: &[usize]) -> Result<(), V
 fn check_decode(data: &Data, k: usize, r: usize, ol: &[(usize, usize)], rl: &[(usize, usize)]) -> Result<(), V> {
     let originals: Vec<(usize, Vec<u8>)> = ol.iter().map(|(i, l)| (*i, data.orig(*i, *l))).collect();
     let recovery: Vec<(usize, Vec<u8>)> = rl.iter().map(|(i, l)| (*i, data.rec(*i, *l))).collect();
-    let one = guard(|| reed_solomon_simd::decode(k, r, originals.iter().map(|(i, s)| (*i, s.as_slice())), recovery.iter().map(|(i, s)| (*i, s.as_slice())))).map_err(|p| ("no panic".to_string(), format!("PANIC: {p}")))?;
-    let one: Result<BTreeMap<usize, Vec<u8>>, Error> = one.map(|m| m.into_iter().collect());
     let inferred = rl.first().map(|x| x.1).or(ol.first().map(|x| x.1));
     let stream = guard(|| -> Result<BTreeMap<usize, Vec<u8>>, Error> {
         if !ReedSolomonDecoder::supports(k, r) {
@@ -186,8 +212,11 @@ fn check_decode(data: &Data, k: usize, r: usize, ol: &[(usize, usize)], rl: &[(u
     if distinct_o + distinct_r < k {
         truthful.push(Error::NotEnoughShards { original_count: k, original_received_count: distinct_o, recovery_received_count: distinct_r });
     }
-    let desc = format!("decode({k},{r},orig=[{}],rec=[{}]) (index:bytes)", fmt_items(ol), fmt_items(rl));
-    match (&stream, &one) {
+    for mode in HINT_MODES {
+    let one = guard(|| reed_solomon_simd::decode(k, r, Loose { inner: originals.iter().map(|(i, s)| (*i, s.as_slice())), mode }, Loose { inner: recovery.iter().map(|(i, s)| (*i, s.as_slice())), mode })).map_err(|p| ("no panic".to_string(), format!("PANIC: {p}")))?;
+    let one: Result<BTreeMap<usize, Vec<u8>>, Error> = one.map(|m| m.into_iter().collect());
+    let desc = format!("decode({k},{r},orig=[{}],rec=[{}]) (index:bytes){}", fmt_items(ol), fmt_items(rl), ["", ", iterators with a loose size_hint upper bound", ", iterators with size_hint (0, None)"][mode as usize]);
+    let verdict: Result<(), V> = match (&stream, &one) {
         (Ok(a), Ok(b)) => {
             if a != b {
                 return Err((format!("{desc} == streaming result {}", show(&stream)), show(&one)));
@@ -221,7 +250,10 @@ fn check_decode(data: &Data, k: usize, r: usize, ol: &[(usize, usize)], rl: &[(u
                 Err((format!("{desc} -> Err naming a violated precondition, one of {truthful:?}"), show(&one)))
             }
         }
+    };
+    verdict?;
     }
+    Ok(())
 }
 
 // ---------------------------------------------------------------- descriptors
@@ -343,10 +375,10 @@ pub fn oneshot_sweep(refm: &RefModel, seed: u64) -> (u64, Vec<(Kv, String, Strin
     let classes = [0usize, 2, 3, 64];
     for (k, r) in [(1usize, 1usize), (2, 1), (2, 2), (3, 2)] {
         let base = Kv::new().with("k", k).with("r", r).with("seed", seed);
-        let mut idx: Vec<usize> = vec![0, 1, k - 1, k, usize::MAX];
+        let mut idx: Vec<usize> = vec![0, 1, k - 1, k, usize::MAX, 1 << 32];
         idx.sort();
         idx.dedup();
-        let mut ridx: Vec<usize> = vec![0, 1, r - 1, r, usize::MAX];
+        let mut ridx: Vec<usize> = vec![0, 1, r - 1, r, usize::MAX, 1 << 32];
         ridx.sort();
         ridx.dedup();
         let oa: Vec<(usize, usize)> = idx.iter().flat_map(|i| classes.iter().map(move |c| (*i, *c))).collect();
@@ -448,10 +480,10 @@ pub fn run(ctx: &Ctx, rep: &mut Report) {
     for &(k, r) in &cfgs {
         let kk = k.min(3);
         let enc = sequences(&lens_alpha, kk + 1);
-        let mut idx: Vec<usize> = vec![0, 1, k.saturating_sub(1), k, usize::MAX];
+        let mut idx: Vec<usize> = vec![0, 1, k.saturating_sub(1), k, usize::MAX, 1 << 32];
         idx.sort();
         idx.dedup();
-        let mut ridx: Vec<usize> = vec![0, 1, r.saturating_sub(1), r, usize::MAX];
+        let mut ridx: Vec<usize> = vec![0, 1, r.saturating_sub(1), r, usize::MAX, 1 << 32];
         ridx.sort();
         ridx.dedup();
         let classes: Vec<usize> = vec![0, 2, 3, 64];
@@ -592,6 +624,68 @@ pub fn run(ctx: &Ctx, rep: &mut Report) {
         }
     }
     rep.bound("unsupported_count_pairs", J::s(format!("{gaps:?}: encode with all originals; decode with all originals and no / one recovery shard, with one original replaced by a recovery shard, with one original missing")));
+    // ---- every original_count in a range (counts at and around 8/16/32/64/128-bit word sizes), complete and
+    // nearly complete inputs: the shortcut paths of the one-shot functions (no recovery shards, nothing missing)
+    let kmax = if ctx.thorough() { 300 } else { 140 };
+    let mut sweep_cases: Vec<Kv> = Vec::new();
+    for k in 1..=kmax {
+        for r in [1usize, 3, 64] {
+            if !spec_supports(Kind::Rs, k, r) {
+                continue;
+            }
+            let base = Kv::new().with("k", k).with("r", r).with("seed", seed);
+            let all: Vec<(usize, usize)> = (0..k).map(|i| (i, 2)).collect();
+            if r == 1 {
+                sweep_cases.push(base.clone().with("fn", "encode").with("lens", fmt_lens(&vec![2; k])));
+                sweep_cases.push(base.clone().with("fn", "encode").with("lens", fmt_lens(&vec![2; k - 1])));
+                sweep_cases.push(base.clone().with("fn", "decode").with("orig", "-").with("rec", "-"));
+                sweep_cases.push(base.clone().with("fn", "decode").with("orig", fmt_items(&all[..k - 1])).with("rec", "-"));
+                sweep_cases.push(base.clone().with("fn", "decode").with("orig", fmt_items(&all[1..])).with("rec", "-"));
+            }
+            sweep_cases.push(base.clone().with("fn", "decode").with("orig", fmt_items(&all)).with("rec", "-"));
+            sweep_cases.push(base.clone().with("fn", "decode").with("orig", fmt_items(&all)).with("rec", fmt_items(&[(r - 1, 2)])));
+            sweep_cases.push(base.clone().with("fn", "decode").with("orig", fmt_items(&all[1..])).with("rec", fmt_items(&[(0, 2)])));
+            sweep_cases.push(base.clone().with("fn", "decode").with("orig", fmt_items(&all[..k - 1])).with("rec", fmt_items(&[(r - 1, 2)])));
+            if k >= 3 && r >= 3 {
+                let mid: Vec<(usize, usize)> = (0..k).filter(|i| *i != k / 2 && *i != k / 2 + 1).map(|i| (i, 2)).collect();
+                sweep_cases.push(base.clone().with("fn", "decode").with("orig", fmt_items(&mid)).with("rec", fmt_items(&[(0, 2), (r - 1, 2)])));
+            }
+        }
+    }
+    // mid-size configurations: every pair of missing originals through the one-shot decode
+    for (k, r) in [(100usize, 10usize), (70, 70)] {
+        let base = Kv::new().with("k", k).with("r", r).with("seed", seed);
+        for i in 0..k {
+            for j in i + 1..k {
+                if !ctx.thorough() && (i + j) % 2 == 1 && j != i + 1 {
+                    continue;
+                }
+                let og: Vec<(usize, usize)> = (0..k).filter(|x| *x != i && *x != j).map(|x| (x, 2)).collect();
+                sweep_cases.push(base.clone().with("fn", "decode").with("orig", fmt_items(&og)).with("rec", fmt_items(&[(i % r, 2), ((i % r + 1 + j % (r - 1)) % r, 2)])));
+            }
+        }
+    }
+    let sweep_results: Vec<Result<(), V>> = par_for(sweep_cases.len(), 16, |i| {
+        let kv = &sweep_cases[i];
+        let (k, r) = (kv.usize("k"), kv.usize("r"));
+        let data = Data::new(&refm, k, r, seed);
+        let res = guard(|| if kv.str("fn") == "encode" { check_encode(&data, k, r, &parse_lens(kv.str("lens"))) } else { check_decode(&data, k, r, &parse_items(kv.str("orig")), &parse_items(kv.str("rec"))) });
+        match res {
+            Ok(r) => r,
+            Err(p) => Err(("no panic".into(), format!("PANIC: {p}"))),
+        }
+    });
+    for (kv, res) in sweep_cases.iter().zip(sweep_results) {
+        if kv.str("fn") == "encode" {
+            n_enc += 1;
+        } else {
+            n_dec += 1;
+        }
+        if let Err((exp, obs)) = res {
+            rep.violation(Violation { key: format!("{}-k{}r{}-{}-{}", kv.str("fn"), kv.str("k"), kv.str("r"), kv.opt("lens").or(kv.opt("orig")).unwrap_or(""), kv.opt("rec").unwrap_or("")), case: kv.dump(), expected: exp, observed: obs });
+        }
+    }
+    rep.bound("count_sweep", J::s(format!("every original_count 1..={kmax} x recovery_count {{1,3,64}}: complete / empty / one-short inputs with and without recovery shards (the short-cut paths), two missing in the middle; every pair of missing originals of (100,10) and (70,70) (quick: pairs with an even index sum and all adjacent pairs) through the one-shot decode ({} calls), each under three size_hint behaviours of the argument iterators", sweep_cases.len())));
     // ---- call pairs on one thread
     let mut pair_total = 0u64;
     for &(k, r) in &[(2usize, 1usize), (2, 2), (3, 2)] {
